@@ -2,6 +2,8 @@ package metadata
 
 import (
 	"fmt"
+	"go/ast"
+	"reflect"
 
 	"github.com/gopher-fleece/gleece/v2/core/annotations"
 	"github.com/gopher-fleece/gleece/v2/definitions"
@@ -14,13 +16,19 @@ type StructMeta struct {
 }
 
 func (s StructMeta) Reduce(ctx ReductionContext) (definitions.StructMetadata, error) {
-	reducedFields := make([]definitions.FieldMetadata, len(s.Fields))
-	for idx, field := range s.Fields {
+	reducedFields := make([]definitions.FieldMetadata, 0, len(s.Fields))
+	for _, field := range s.Fields {
 		reduced, err := field.Reduce(ctx)
 		if err != nil {
 			return definitions.StructMetadata{}, fmt.Errorf("failed to reduce field '%s' - %v", field.Name, err)
 		}
-		reducedFields[idx] = reduced
+
+		if !isJsonVisibleField(reduced) {
+			// Unexported fields and fields tagged `json:"-"` never appear on the wire and so are not part of the model
+			continue
+		}
+
+		reducedFields = append(reducedFields, reduced)
 	}
 
 	return definitions.StructMetadata{
@@ -30,4 +38,18 @@ func (s StructMeta) Reduce(ctx ReductionContext) (definitions.StructMetadata, er
 		Fields:      reducedFields,
 		Deprecation: GetDeprecationOpts(s.Annotations),
 	}, nil
+}
+
+// isJsonVisibleField determines whether encoding/json would (de)serialize the given field
+func isJsonVisibleField(field definitions.FieldMetadata) bool {
+	if field.IsEmbedded {
+		// Embedded fields are flattened by their own rules and are handled by the schema generators
+		return true
+	}
+
+	if !ast.IsExported(field.Name) {
+		return false
+	}
+
+	return reflect.StructTag(field.Tag).Get("json") != "-"
 }
